@@ -395,7 +395,7 @@ func main() {
 		"HTML forests over 14 labels (link-bearing: a[href]+own label, a without href, img, img without alt, img without src, iframe, video; containers b,p,blockquote,ul,li,pre; text) with <=3 (quick) / <=4 (thorough) nodes, "+
 			"Markdown/gemtext/plaintext line sequences, x hosts {post, activity, actor} x attachment lists (<=2 / <=3 of 5 kinds on the <=2-node documents) x 8 widths; numbers parsed from String(width) are compared with SelectLink; "+
 			"SelectLink at min-int,-1,0,N+1,N+2,max-int; UI part: on one document per media type with two attachments, every k in 0..N+1 typed + Enter through the real ui.State with a real exec of the dump program, "+
-			"on a fresh page (also written with one and two leading zeros; one document has twelve links), after a cancelled number and command, while the viewer opened for number 1 / N is still running, and with a viewer that fails between the digits and Enter: Markdown reference-style links with the same label in consecutive documents (20 rounds of 4 documents); the hook receives exactly SelectLink(k)'s target, nothing for k outside 1..N; distinct_nontrivial = cases with at least two numbered elements")
+			"on a fresh page (also written with one and two leading zeros, and with 2^32, 2^63, 2^64 and 2^65 added, which must open nothing; one document has twelve links), after a cancelled number and command, while the viewer opened for number 1 / N is still running, and with a viewer that fails between the digits and Enter: Markdown reference-style links with the same label in consecutive documents (20 rounds of 4 documents); the hook receives exactly SelectLink(k)'s target, nothing for k outside 1..N; distinct_nontrivial = cases with at least two numbered elements")
 	debug.SetGCPercent(800)
 	if *ev.FlagReplay != "" {
 		var d struct {
